@@ -30,9 +30,10 @@ PROPERTY = "C20"
 LEVEL = "exploration"
 
 Q_FILES = 8
-Q_PER_FILE = 650  # kind 1-3 mutants taken per selected file in the quick tier (whole programs, in file order)
+Q_PER_FILE = 800  # kind 1-3 mutants taken per selected file in the quick tier (whole programs, in file order)
 T_EXTRA_BUDGET = int(os.environ.get("VERIF_C20_EXTRA", "12000"))  # kinds 4-8 mutants (thorough sub-slice)
 T_EXTRA_PER_PROGRAM = 600
+T_STRIDE = int(os.environ.get("VERIF_C20_T_STRIDE", "1"))
 RUNNING_PY = (3, 12)
 
 
@@ -121,6 +122,9 @@ def select_slice(ctx: Ctx) -> tuple[list[tuple[dict, tuple[int, ...]]], dict[str
         return chosen, info
     by_file = load_programs(["check-*.test", "semanal-*.test", "fine-grained*.test"])
     allp = [p for f in sorted(by_file) for p in by_file[f]]
+    if T_STRIDE > 1:  # development knob (not the default): every T_STRIDE-th program of the full list
+        allp = allp[::T_STRIDE]
+        info["VERIF_C20_T_STRIDE"] = T_STRIDE
     extra_ids: set[str] = set()
     budget = T_EXTRA_BUDGET
     skipped_large = 0
@@ -135,7 +139,8 @@ def select_slice(ctx: Ctx) -> tuple[list[tuple[dict, tuple[int, ...]]], dict[str
             continue
         extra_ids.add(p["id"])
         budget -= k
-    info["files"] = [{"file": os.path.basename(f), "programs": len(by_file[f])} for f in sorted(by_file)]
+    info["files"] = len(by_file)
+    info["programs_per_pattern"] = {pat: sum(len(v) for f, v in by_file.items() if os.path.basename(f).startswith(pat)) for pat in ("check-", "semanal-", "fine-grained")}
     info["extra_kinds_programs"] = len(extra_ids)
     info["extra_kinds_skipped_too_large"] = skipped_large
     info["rule"] = (f"all main programs of check-*, semanal-*, fine-grained*.test with kinds 1-3; kinds 4-8 on the programs of a "
@@ -431,7 +436,7 @@ def run(ctx: Ctx) -> Result:
             "lane": "daemon", "case": "<warm-up>", "flags": [], "corpus_flags": [], "flags_dropped": False, "corpus_tags": [],
             "mutation": {"kind": 0, "desc": "empty program"}, "original_main": "", "main.py": "", "files": {},
             "observed": {"log_tail": (warm.get("log") or "")[-1500:], "out": warm["out"][:20]}, "crash": extra}))
-    if warm_violations:
+    if any(not os.path.isdir(m) for m in masters.values()) or L.judge_daemon(warm):
         # mypy fails on the stdlib alone: nothing else can be explored, and nothing else needs to be
         return Result(PROPERTY, LEVEL, {
             "evaluations": len(masters) + 1, "distinct_nontrivial": len(masters) + 1, "exhaustive": False,
@@ -492,7 +497,7 @@ def run(ctx: Ctx) -> Result:
         lst = sorted(by_sig[sig], key=lambda pv: (pv[1]["lane"] != "batch", _size_key(pv[1]["text"]), pv[0], pv[1]["idx"]))
         by_sig[sig] = lst
         witnesses.append(lst[0])
-    max_runs = 150 if ctx.quick else 400
+    max_runs = 80 if ctx.quick else 400
     conf_items = [(progs[pid], v, masters[progs[pid]["master_key"]], max_runs) for pid, v in witnesses]
     conf: dict[str, dict[str, Any]] = {}
     for _i, it, st, val in pmap(confirm_and_reduce, conf_items, fresh=False):
@@ -502,7 +507,7 @@ def run(ctx: Ctx) -> Result:
         else:
             conf[it[1]["sig"]] = val
 
-    violations: list[Violation] = []
+    violations: list[Violation] = list(warm_violations)  # non-fatal oracle violations of the warm-up programs themselves
     sig_summary = {}
     for sig in sorted(by_sig):
         lst = by_sig[sig]
